@@ -47,10 +47,11 @@ TraceClauses(t) ==
     \cup (IF t.listing = [i \in 1 .. a.numinst |-> i - 1] THEN {} ELSE {"file_names"})
     \cup UNION {FileClauses(a, t.files[i]) : i \in DOMAIN t.files}
 
-Lens(t) == LET a == ArgsOf(t)  na == IF a.mp = "spa" THEN 3 ELSE 2 IN
-           UNION {IF StructureOK(t.files[i], na)
-                  THEN {Len(ParseFC(t.files[i], na).prefs[s]) : s \in 1 .. ParseFC(t.files[i], na).ns} ELSE {}
-                  : i \in DOMAIN t.files}
+LensOfFile(a, text) ==
+    LET na == IF a.mp = "spa" THEN 3 ELSE 2 IN
+    IF ~StructureOK(text, na) THEN {}
+    ELSE LET pr == ParseFC(text, na).prefs IN {Len(pr[s]) : s \in DOMAIN pr}
+Lens(t) == LET a == ArgsOf(t) IN UNION {LensOfFile(a, t.files[i]) : i \in DOMAIN t.files}
 
 TInit == /\ tid \in 1 .. Len(Traces)
          /\ args = ArgsOf(Traces[tid]) /\ gphase = "start" /\ dir = "absent" /\ files = <<>> /\ cur = NoCur
